@@ -1289,3 +1289,62 @@ Theorem refused_open_unchanged soft o s : hnd s <> HClosed -> o = OpOpenO \/ o =
 Proof.
   intros Hh [Ho | [Ho | Ho]]; subst o; unfold step; destruct (hnd s); try reflexivity; contradiction.
 Qed.
+
+(* ------------------------------------------------------------------ a refused statement changes nothing
+   every operation that ends in a BASIC error leaves the disk contents, the open file and its bytes as they
+   were; only Input past end (62) moves the read position of the input file (onto the end) *)
+Lemma input_entry_err k r e : input_entry k r = Err e -> e = tf_err_INPUT_PAST_END.
+Proof.
+  intro H. destruct (input_entry_total k r) as [(w & c & r' & Hok) | He].
+  - rewrite H in Hok. discriminate Hok.
+  - rewrite H in He. injection He as He. exact He.
+Qed.
+Lemma line_input_err r e : line_input r = Err e -> e = tf_err_INPUT_PAST_END.
+Proof.
+  intro H. destruct (line_input_total r) as [(l & r' & Hok) | He].
+  - rewrite H in Hok. discriminate Hok.
+  - rewrite H in He. injection He as He. exact He.
+Qed.
+
+Definition same_files (s s' : fstate) : Prop :=
+  disk s' = disk s /\
+  match hnd s, hnd s' with
+  | HClosed, HClosed => True
+  | HOut w, HOut w' => w' = w
+  | HIn raw _ _, HIn raw' _ _ => raw' = raw
+  | _, _ => False
+  end.
+
+Ltac ecn_fin Hh := split; [intros _; reflexivity | split; [reflexivity | rewrite ?Hh; cbn; first [exact I | reflexivity]]].
+
+Theorem error_changes_nothing soft o s e : fst (step soft o s) = [1; e] ->
+  (e <> tf_err_INPUT_PAST_END -> snd (step soft o s) = s) /\ same_files s (snd (step soft o s)).
+Proof.
+  unfold step, same_files. destruct o; destruct (hnd s) as [|w|raw r att] eqn:Hh; cbn [fst snd];
+    try discriminate; try (intro H; ecn_fin Hh; fail).
+  all: try (destruct (disk s) eqn:Hd; cbn [fst snd]; try discriminate; intro H; ecn_fin Hh; fail).
+  all: try (destruct ((0 <=? n) && (n <=? 255)); cbn [fst snd]; try discriminate; intro H; ecn_fin Hh; fail).
+  all: try (destruct ((Z.of_nat n <? 1) || (255 <? Z.of_nat n)); cbn [fst snd]; intro H; ecn_fin Hh; fail).
+  - (* OPEN FOR INPUT, file not found *)
+    destruct (disk s) eqn:Hd; cbn [fst snd hnd disk]; [discriminate|]. intro H.
+    split; [intros _; reflexivity|]. split; [exact Hd|]. rewrite Hh. exact I.
+  - (* INPUT# *)
+    destruct kinds as [|k ks]; cbn [input_vars fst snd]; [discriminate|].
+    destruct (input_entry k r) as [[[w c] r'] | e0 | x |] eqn:He; cbn [fst snd].
+    + destruct (input_vars ks r' (negb ((zlen w =? 255) && (c =? CR)))) as [[o r''] a]. cbn [fst snd].
+      discriminate.
+    + intro H. injection H as H. subst e0. rewrite (input_entry_err _ _ _ He). cbn [hnd disk].
+      split; [intro Hc; contradiction | auto].
+    + discriminate.
+    + discriminate.
+  - (* LINE INPUT# *)
+    destruct (line_input r) as [[l r'] | e0 | x |] eqn:He; cbn [fst snd]; try discriminate.
+    intro H. injection H as H. subst e0. rewrite (line_input_err _ _ He). cbn [hnd disk].
+    split; [intro Hc; contradiction | auto].
+  - (* INPUT$ *)
+    destruct ((Z.of_nat n <? 1) || (255 <? Z.of_nat n)); cbn [fst snd]; [intro H; ecn_fin Hh|].
+    destruct (negb soft && (1 <? Z.of_nat n)); cbn [fst snd]; [discriminate|].
+    unfold input_str. destruct (read_n n r) as [out r'].
+    destruct (length out <? n)%nat; cbn [fst snd]; [|discriminate].
+    intro H. injection H as H. subst e. cbn [hnd disk]. split; [intro Hc; contradiction | auto].
+Qed.
